@@ -294,6 +294,7 @@ def run_real(case):
                         if r.random() < 0.5:
                             s.setsockopt(socket.SOL_SOCKET, socket.SO_LINGER, b"\x01\x00\x00\x00\x00\x00\x00\x00")  # RST on close
                         s.close()
+                        time.sleep(0.004)  # bounded connection rate: abuse, not a SYN flood of the listen backlog
                     except OSError:
                         time.sleep(0.01)
 
